@@ -343,6 +343,7 @@ type ParseResult struct {
 	Custom        bool     // failure caused by an action error
 	StepsExceeded bool     // the reference itself hit its step bound: inconclusive
 	Recoveries    int      // number of successful recoveries
+	ErrorShifts   int      // number of times the error symbol was shifted (recovered or not)
 	Scans         int      // Scan calls made
 	MaxDepth      int      // deepest parse stack reached
 	Touched       map[[2]int]bool
@@ -418,6 +419,7 @@ func (l *LR1) Parse(toks []int, o ParseOpts) ParseResult {
 			es := l.Resolved[states[rs]][c.ErrTerm].Arg
 			states = append(states, es)
 			attrs = append(attrs, Attr{Kind: 'e', Err: &ErrAttr{Tok: errTok, Syms: discarded}})
+			res.ErrorShifts++
 			recovered := false
 			for {
 				cur := tokAt(scanIdx)
